@@ -435,8 +435,8 @@ class Installer:
                 # Create dirs if needed
                 dirmaker.makedirs(outdir, exist_ok=True)
         if os.path.islink(from_file):
-            if not os.path.exists(from_file):
-                # Dangling symlink. Replicate as is.
+            if not os.path.exists(from_file) or os.path.isdir(from_file):
+                # Dangling symlink, or a symlink to a directory (cannot be copied as a file). Replicate as is.
                 self.copy(from_file, outdir, follow_symlinks=False)
             else:
                 if follow_symlinks is None:
